@@ -111,6 +111,7 @@ func (m *Member) Synchronize(ctx context.Context, f func([]uint16), topicToSynch
 		if len(members) >= expectedMemberCount {
 			break
 		}
+		verifYield(m.ID, "select")
 		select {
 		case <-ctx.Done():
 			return fmt.Errorf("only %d out of %d parties synchronized", len(members), expectedMemberCount)
@@ -139,8 +140,10 @@ func (m *Member) Synchronize(ctx context.Context, f func([]uint16), topicToSynch
 	acknowledgementsLeft := expectedMemberCount - 1
 
 	for acknowledgementsLeft > 0 {
+		verifYield(m.ID, "wait")
 		select {
 		case peers := <-tpv.responses:
+			verifYield(m.ID, "ack")
 			if myView != fmt.Sprintf("%v", peers) {
 				continue
 			}
